@@ -2155,6 +2155,18 @@ Proof.
   intros Hx Hp. unfold foreign. apply existsb_exists. exists x. split; [exact Hx|].
   unfold unparsable. rewrite Hp. reflexivity.
 Qed.
+(* since [parse_id_tag] only accepts the canonical rendering of a number, the id condition of
+   the well-formedness predicate holds for EVERY list of names (it is kept in the statements
+   below, where it is now redundant) *)
+Lemma canonical_all {X} (key : X -> string) p x : canonical key p x = true.
+Proof.
+  unfold canonical. destruct (parse_id_tag p (key x)) as [i|] eqn:E; [|reflexivity].
+  apply parse_id_tag_canonical in E. rewrite E. apply String.eqb_refl.
+Qed.
+Lemma ids_okb_all {X} (key : X -> string) p l : ids_okb key p l = true.
+Proof.
+  unfold ids_okb. apply orb_true_iff. right. apply forallb_forall. intros x _. apply canonical_all.
+Qed.
 
 Section Final.
   Variable M : lp_model.
